@@ -1,6 +1,7 @@
 \* C03 handshake state space: 2 connections x 2 clients, every handshake message class,
 \* control and tunnel types, bans / blacklist / credential expiry.  Substituted by the driver:
 \* LEVEL (depth bound), EMIT (behaviour printing), FIXES (which patches the modelled tree has).
+\* (The persisted lists, restarts, undecryptable / reset secrets: Session_c03addr / _c03key / _c03env.)
 CONSTANTS
   Conn <- Conn2
   Client <- Client2
@@ -8,7 +9,7 @@ CONSTANTS
   MaxFail = 3
   MaxCtl = 0
   Faults = {}
-  Ops = {"Msg", "Ban", "Blacklist", "Expire", "Bind", "Reload", "Corrupt"}
+  Ops = {"Msg", "Ban", "Blacklist", "Expire", "Bind"}
   Types = {"control", "tunnel"}
   PreAccept = TRUE
   Fixes = @@FIXES@@
